@@ -325,12 +325,6 @@ Proof.
   congruence.
 Qed.
 
-Theorem decode_and_verify_total decoded ctx : decoded <> Panic -> decode_and_verify decoded ctx <> Panic.
-Proof.
-  unfold decode_and_verify. destruct decoded as [m|e|]; cbn [obind]; intros H; try discriminate; try congruence.
-  apply extract_and_verify_total.
-Qed.
-
 Lemma new_signed_msg_ok ctx k ht data m :
   new_signed_msg ctx k ht data = Ok m <->
   data <> [] /\ exists len, ht_lookup ht hash_sum_table = Some len /\
